@@ -426,6 +426,8 @@ func init() {
 		panic(&abortPath{Kind: "exit", Reason: "os.Exit"})
 	})
 	reg("os.Getenv", func(fr *frame, args []value) value { return "" })
+	reg("os.MkdirTemp", func(fr *frame, args []value) value { return tuple{"/zz-no-filesystem/tmp", nilError()} })
+	reg("os.RemoveAll", func(fr *frame, args []value) value { return nilError() })
 	reg("os.LookupEnv", func(fr *frame, args []value) value { return tuple{"", false} })
 
 	// ---- math/rand ----
